@@ -51,10 +51,12 @@ def run(ctx):
     # ---------------- programs
     progs = list(M.REGRESSION)
     for cfg in cfgs:
-        progs += M.small_scope(cfg, quick)
+        # thorough: the complete enumeration under the lowered thresholds (where the three protocols differ), the
+        # reduced one under the other configurations
+        progs += M.small_scope(cfg, quick or cfg != "low")
     n_core = len(progs)
-    n_paired = 240 if quick else 2000
-    n_free = 40 if quick else 400
+    n_paired = 240 if quick else 1500
+    n_free = 40 if quick else 300
     mc_cap = 6000 if quick else 60000          # programs above this measure are validated (T) but not explored (M)
     allcfg = list(M.CONFIGS)
     for i in range(n_paired):
@@ -142,7 +144,9 @@ def run(ctx):
         probe_dl = i in outs and any(o["end"] == "deadlock" and o["probe"] for o in outs[i])
         has_probe = any(o["op"] == "probe" for a in p["ranks"] for o in a)
         to = 6 if probe_dl else (10 if has_probe and i not in outs else 40)     # an unsatisfied MPI_Probe polls for ever
-        ls = [layouts[(i + ctx.seed) % 3]] if quick else [layouts[(i + ctx.seed) % 3], layouts[(i + ctx.seed + 1) % 3]]
+        ls = [layouts[(i + ctx.seed) % 3]]
+        if not quick and i >= n_core:           # thorough: the seeded programs run under two host layouts
+            ls.append(layouts[(i + ctx.seed + 1) % 3])
         for lay in ls:
             jobs.append((len(jobs), p, lay, to, i))
     traces = M.run_many(ctx, jobs)
